@@ -37,6 +37,7 @@ type Program struct {
 	tensorPkg   *types.Package
 	loadSecs    float64
 	lemmas      []*SmtLemma
+	opImpls     []opImpl
 }
 
 func loadProgram(repo, verifDir string) (*Program, error) {
